@@ -276,6 +276,9 @@ recurseTail:
 				}
 			}
 			obj = o[len(o)-1]
+			// A procedure in tail position is pushed, like everywhere else
+			// in the body, not executed.
+			execProc = false
 			goto recurseTail
 		} else {
 			intp.Stack = append(intp.Stack, o)
